@@ -7,6 +7,8 @@
                          definitions were looked at
   R-C16-buckets          per rule and test case: no expectation => skipped bucket only (never failed); matched => passed;
                          unmatched => failed (structured and plain reporter)
+  R-C16-grouping         get_by_rules appends every top-level RuleCheck record to the list of its rule name and never overwrites an entry
+                         (several, also non-adjacent, definitions of one rule all reach get_status_result)
   R-C16-junit-counts     the JUnit rendering agrees with the others on what failed: build_junit_test_cases emits one Pass element per
                          entry of passed_rules and one Fail element per entry of failed_rules, and the suite's `failures`
                          attribute is accumulated from the LENGTH of failed_rules of every test case (not from a count of test cases)
@@ -158,6 +160,40 @@ def buckets(ctx, cr):
                    sample={"reporter": "structured", "pushes": sorted(map(str, got))})
         except ai.Undecided as e:
             ctx.ob(rule, rule + ":structured", False, "undecided %s" % e, fn=f)
+    # every evaluated test case reaches the result: from the evaluation of a test input, every path back to the head of the per-input loop
+    # passes insert_test_case (paths that leave the loop are error returns).  A `continue` for "empty" cases drops test cases whose rules
+    # all lack an expectation from the JSON / YAML / JUnit renderings while the plain text still lists them.
+    f = cr.fns.get(STRUCT)
+    if f:
+        from engine import flow
+        succ = [M.successors(b["term"]) for b in f["blocks"]]
+        evals = [(bi, t) for bi, t in M.iter_calls(f) if M.norm_path(t["fn"].get("path", "")).endswith("rules::eval::eval_rules_file")]
+        inserts = set(bi for bi, t in M.iter_calls(f) if M.norm_path(t["fn"].get("path", "")).endswith("TestResult::insert_test_case"))
+        nexts = [bi for bi, t in M.iter_calls(f) if M.norm_path(t["fn"].get("decl", "")) == "std::iter::Iterator::next"]
+        if len(evals) != 1 or not inserts:
+            ctx.lost(rule, rule + ":every-test-case-reported", "eval_rules_file calls: %d, insert_test_case calls: %d in the structured test reporter" % (len(evals), len(inserts)))
+        else:
+            dom = flow.dominators(f)
+            bi, t = evals[0]
+            loops = [(len(flow.natural_loop(f, h, dom)), h) for h in nexts if bi in flow.natural_loop(f, h, dom)]
+            if not loops or t.get("to") is None:
+                ctx.lost(rule, rule + ":every-test-case-reported", "the per-input loop around eval_rules_file")
+            else:
+                header = min(loops)[1]
+                body = flow.natural_loop(f, header, dom)
+                seen, st, escaped = set(), [t["to"]], False
+                while st:
+                    b = st.pop()
+                    if b in seen or b in inserts or b not in body:
+                        continue
+                    if b == header:
+                        escaped = True
+                        break
+                    seen.add(b)
+                    st.extend(succ[b])
+                ctx.ob(rule, rule + ":every-test-case-reported", not escaped,
+                       "after a test input was evaluated the loop can go on to the next input without insert_test_case: that test case is missing from the structured report" if escaped
+                       else "every evaluated test input is inserted into the result before the next one", fn=f, line=t.get("ln", 0))
     f = cr.fns.get(GEN)
     if not f:
         ctx.lost(rule, rule + ":generic", GEN)
@@ -197,6 +233,98 @@ def buckets(ctx, cr):
                sample={"reporter": "generic", "insertions": sorted(map(str, got))})
     except ai.Undecided as e:
         ctx.ob(rule, rule + ":generic", False, "undecided %s" % e, fn=f)
+
+
+def grouping(ctx, cr):
+    """get_by_rules keeps EVERY RuleCheck record of the file, grouped under its rule name: each top-level child that is a RuleCheck is
+    appended (entry(name).or_default().push) to the list of its name, nothing else is, and the map is never written by overwriting
+    (IndexMap::insert, or collecting (name, list) pairs, keeps only the last run of a name when definitions of one rule are not
+    adjacent — `itertools::group_by` groups consecutive runs only)."""
+    rule = "R-C16-grouping"
+    f = cr.fns.get(GBR)
+    if not f:
+        ctx.lost(rule, rule + ":get_by_rules", GBR)
+        return
+    unit = [k for k in cr.fns if k == GBR or k.startswith(GBR + "::{closure")]
+    overwrite = []
+    for k in unit:
+        body = cr.fns[k]
+        for bi, t in M.iter_calls(body):
+            p = M.norm_path(t["fn"].get("path", ""))
+            decl = M.norm_path(t["fn"].get("decl", ""))
+            dty, _ = M.place_ty(cr, None, t["dest"], body) if t.get("dest") is not None else (None, None)
+            into_map = dty is not None and (dty.adt_path() or "").endswith("IndexMap")
+            if p.endswith("IndexMap::insert") or p.endswith("IndexMap::insert_full") or ((decl in ("std::iter::Iterator::collect", "std::iter::FromIterator::from_iter")) and into_map) or (
+                    decl == "std::iter::Extend::extend" and t["args"] and "IndexMap" in (cr.ty_str(M.place_ty(cr, None, M.op_place(t["args"][0]), body)[0].idx) if M.op_place(t["args"][0]) is not None else "")):
+                overwrite.append("%s (l.%s)" % (p.split("::")[-1] if not into_map else "collect into IndexMap", t.get("ln")))
+            if "group_by" in p or "chunk_by" in p or "dedup" in p:
+                overwrite.append("%s (l.%s)" % (p.split("::")[-1], t.get("ln")))
+    ctx.ob(rule, rule + ":append-only", not overwrite, ("the map of records per rule name is written through %s: a later, non-adjacent definition of a rule replaces the earlier ones instead of joining them" % overwrite) if overwrite
+           else "the map is written through entry(..).or_default().push only", fn=f)
+    results = []
+
+    class H(ai.Hooks):
+        lazy_pipes = True
+
+        def inline(self, a, st, key, fn):
+            return fn.get("kind") == "closure" and key.startswith(GBR)
+
+        def call(self, a, st, term, callee, args):
+            p = M.norm_path(callee.get("path", ""))
+            decl = M.norm_path(callee.get("decl", ""))
+            mon = st.mon or Mon()
+            if decl == "std::iter::Iterator::next" and term.get("to") is not None:
+                it = a.resolve(st, args[0])
+                if it[0] == "ref":
+                    it = a.resolve(st, a.read_at(st, it[1], it[2]))
+                if ai.is_pipe(it):
+                    return None
+                if mon.get("n"):
+                    return [(("enum", ai.OPTION, 0, ()), mon)]
+                return [(("enum", ai.OPTION, 1, (("ref", ("X", "CHILD"), ()),)), mon.set(n=1)), (("enum", ai.OPTION, 0, ()), mon)]
+            if p.endswith("IndexMap::entry") and len(args) == 2:
+                return [(("sym", "ENTRY"), mon.set(key=ai.fmt_val(a.resolve(st, args[1]), cr)))]
+            if p.endswith("Entry::or_default") or p.endswith("Entry::or_insert") or p.endswith("Entry::or_insert_with"):
+                return [(("ref", ("X", "SLOT"), ()), mon)]
+            if p == "std::vec::Vec::push" and args:
+                tgt = ai.fmt_val(a.resolve(st, args[0]))
+                if "SLOT" in tgt:
+                    return [(("tuple", ()), mon.set(pushed=(mon.get("pushed") or 0) + 1, what=ai.fmt_val(a.resolve(st, args[1]), cr)))]
+            return None
+
+        def constrained(self, a, st, sid, val):
+            mon = st.mon or Mon()
+            if sid.startswith("CHILD") and val[0] == "enum" and val[1] == "rules::RecordType" and mon.get("rt") is None:
+                vs = cr.adts["rules::RecordType"]["variants"]
+                st.mon = mon.set(rt=vs[val[2]]["name"])
+            elif sid.startswith("CHILD") and val[0] == "enum" and val[1] == ai.OPTION and val[2] == 0 and mon.get("rt") is None:
+                st.mon = mon.set(rt="(no container)")
+
+        def ret(self, a, st, v):
+            results.append(st.mon or Mon())
+    a = ai.AI(cr, H())
+    try:
+        a.run(GBR, mon=Mon(), ext={"CHILD": ("sym", "CHILD")})
+    except ai.Undecided as e:
+        ctx.ob(rule, rule + ":every-rule-check-kept", False, "undecided %s" % e, fn=f)
+        return
+    ctx.states += a.n_states
+    bad, n_keep = [], 0
+    for mon in results:
+        if not mon.get("n"):
+            continue
+        rt, pushed = mon.get("rt"), mon.get("pushed") or 0
+        if rt == "RuleCheck":
+            if pushed != 1:
+                bad.append("a RuleCheck child is appended %d times" % pushed)
+            elif "CHILD" not in (mon.get("key") or "") or "CHILD" not in (mon.get("what") or ""):
+                bad.append("a RuleCheck child is filed under %s with %s, not under its own name with its own record" % (mon.get("key"), mon.get("what")))
+            else:
+                n_keep += 1
+        elif pushed:
+            bad.append("a %s child is appended to a rule's records" % rt)
+    ctx.ob(rule, rule + ":every-rule-check-kept", not bad and n_keep >= 1 and not overwrite, "; ".join(sorted(set(bad))[:2]) or ("%d paths keep the RuleCheck child under its name; other children are not kept" % n_keep if not overwrite else "not decided: the map is not built by appending"), fn=f,
+           sample={"fn": GBR, "paths_keeping": n_keep})
 
 
 TS = "commands::reporters::test::structured::"
@@ -348,6 +476,7 @@ def run(ctx):
     same_core(ctx, cr)
     status_match(ctx, cr)
     buckets(ctx, cr)
+    grouping(ctx, cr)
     junit_counts(ctx, cr)
     ctx.assumptions += [
         "JSON / YAML / JUnit renderings are produced from the same TestResult value by serde / quick-xml (dependencies)",
